@@ -78,6 +78,10 @@ class Cmp(object):
             self.ob(not diff, '%s: identical names in the same order (first difference %r)' % (where, diff[:1]))
 
 
+class _Stop(Exception):
+    pass
+
+
 def replay(d):
     import numpy as np
     import mulgrids as M
@@ -91,6 +95,12 @@ def replay(d):
     try:
         try:
             geo, info = MODEL.build(prov, M, np, shape)
+        except MODEL.Rejected as ex:
+            # the real API refused these values while the geometry was being set up: there is no
+            # geometry to write, hence no round-trip violation (the check counts such paths as
+            # 'input-rejected' and never reports them)
+            return False, 'input rejected while building the geometry (%s): nothing to write' % ex
+        try:
             geo.write('g1.dat')
             g2 = M.mulgrid('g1.dat')
             same_units = MODEL.compare(cmp, geo, g2)
@@ -101,12 +111,23 @@ def replay(d):
                     la, lb = a.split('\n'), b.split('\n')
                     diff = [(i, x, y) for i, (x, y) in enumerate(zip(la, lb)) if x != y][:2]
                     cmp.problems.append('rewrite: second write differs from the first: %r' % (diff or (len(la), len(lb)),))
-                if shape.get('cycles', 3) >= 3:
+                if shape.get('edit'):
+                    try: edited = MODEL.edit(prov, g2, shape)
+                    except MODEL.Rejected as ex: raise _Stop()
+                    g2.write('g2e.dat')
+                    g3 = M.mulgrid('g2e.dat')
+                    MODEL.compare(cmp, g2, g3, exact=True, where='edit ', edited=edited)
+                    g3.write('g3.dat')
+                    if open('g2e.dat').read() != open('g3.dat').read():
+                        cmp.problems.append('edit-rewrite: the file written after the edit is not reproduced')
+                elif shape.get('cycles', 3) >= 3:
                     g3 = M.mulgrid('g2.dat')
                     MODEL.compare(cmp, g2, g3, exact=True, where='cycle ')
                     g3.write('g3.dat')
                     if open('g2.dat').read() != open('g3.dat').read():
                         cmp.problems.append('cycle: third write differs from the second')
+        except _Stop:
+            pass        # the edit was refused by the real API: what was compared so far stands
         except Exception as ex:
             import traceback
             cmp.problems.append('exception %s: %s | %s' % (type(ex).__name__, ex, traceback.format_exc()[-500:].replace('\n', ' / ')))
